@@ -6,7 +6,7 @@ PROP = dict(
                    "gives exactly the document value converted to the field type (C17_prefix_exact); the prop shorthand is definitionally the value tag "
                    "${key} with the same arguments (C17_prop_is_value); binding through ${key} equals binding by prefix for every Faithful value "
                    "(C17_value_eq_prefix_partial: plain strings, |int| <= 2^53, booleans, short decimals, JSON-safe lists/maps thereof) and a plain literal "
-                   "is bound as written (C17_literal_partial); a default declared in the placeholder or the shorthand (${key:d}, prop:\"key:d\") plays no part "
+                   "is bound as written (C17_literal_partial); a struct member is bound from the key equal to its name up to letter case - with keys pairwise different up to letter case the decoder's search (exact name first, else the first match in Go's map order) IS the case-insensitive search (C17_member_key_any_case), so a map literal whose keys are spelled with capitals binds the same struct as the document's lower-cased section (C17_struct_keys_respelled) and sibling keys that differ from a member's key by `-` / `_` only play no part (C17_decoy_key_ignored); a default declared in the placeholder or the shorthand (${key:d}, prop:\"key:d\") plays no part "
                    "whenever the key is configured with a present value, the zero values 0 / false / 0.0 / \"\" included (C17_default_ignored); "
                    "a property that is populated AGAIN after a failed creation of its component binds exactly what a first-time population under the CURRENT "
                    "configuration binds, whatever TagVal and field contents the earlier population left (C17_repopulate_current, on the holder model "
@@ -70,7 +70,7 @@ PROP = dict(
              "after these, n/25 HM histories whose edits go BELOW the top level (`<field>:/k<hexkey>/i<index>/…:<op>`): a key set / deleted inside a nested map (sa.sb, sa.sb.sc), an element of a nested list "
              "(sa.sb.sl) or of a map inside a list (sm: [{kn, kp}, …]) overwritten, edits through fields of type any bound by prefix to a section / a list (type-asserted, top level and below; Go-declared "
              "vlMutInitAny for the Init modes j<n> ja jz); B binds the affected leaves by prop / ${} / prefix (scalar, struct, *struct, []struct, map, any); same oracle; "
-             "non-trivial = everything except bool->bool; distinct = distinct scenario lines",
+             "after these, n/25 cases whose KEYS AND MEMBER NAMES DIFFER IN LETTER CASE (label keycase): struct / *struct / []struct / map[string]struct targets (members string, int, bool, []string, a nested struct; (yaml) names and keys spelled host / Host / HOST / hOst independently, the first member's key always with a capital and spelled differently from the name) bound from a map literal in the value tag (`map[Host:a Port:1]` or the JSON form, keys as written) next to prop / prefix twins that take the same data from the document, from the DEFAULT of a placeholder and of the shorthand (`${kx:map[Host:a]}`, `prop:\"kx:map[Host:a]\"`, kx absent) next to a prefix twin on a key that holds the same data, and through ${k} / prop / prefix from the document: the literal / the default is bound as written (valuepath-keycase), the prefix twin holds the document's data (prefix-mismatch), the shorthand twin of a placeholder with a default binds what the placeholder binds (prop-differs), ${k} = prop = prefix (valuepath-other); after these, n/25 cases whose sections have DECOY KEYS (label decoy): next to a member's key (`a`, `a_b`, `maxconn`) one or two siblings that differ from it by `-` / `_` only (`_a`, `a-`, `ab`, `max_conn`, `max-conn`) with another value of the same type; the member's name has a capital three times in four (then no key is spelled exactly like it); bound through ${k} / prop / prefix, from a literal, from a default, into struct / *struct / []struct / map-of-struct; every case is STARTED 4 TIMES (flag r; mapstructure ranges over a Go map when it looks for a member's key) and one in three writes the keys of its document in capitals (flag c<n>: Capitalised / UPPER / aLTERNATING; viper lower-cases them): the member must hold the value under the key equal to its name up to letter case on every start (start-unstable / prefix-mismatch / valuepath-other); non-trivial = everything except bool->bool; distinct = distinct scenario lines",
         trusted_base=COMMON_TB + ["yaml.v3 + viper (document -> Go value), strconv2.ParseAny/FormatAny, mapstructure weak decoding, fmt %v / strconv.FormatFloat, "
                                   "encoding/json as modelled in Ioc.Value (validated by the correspondence on every run)",
                                   "assumption Json.Lawful on the JSON codec parameter of the list/map part of C17_value_eq_prefix_partial"],
